@@ -94,7 +94,7 @@ Notation F := (er_fl_gen rnd mix).
 (* (angle * 2 / PI).floor().rem_euclid(4): the quarter-turn index modulo 4 *)
 Lemma quadrant_fin t : quadrant F (EFin t) = quad_of_Z (qz t mod 4).
 Proof.
-  unfold quadrant. fl_red. cbn [er_mul er_div er_floor er_lift].
+  unfold quadrant. cbn [fl_quadrant er_fl_gen]. unfold er_quadrant. cbn [er_mul er_div er_floor er_lift].
   pose proof PI_RGT_0.
   destruct (Req_EM_T PI 0) as [E|_]; [lra|]. cbn [er_floor er_lift er_rem_euclid].
   destruct (Req_EM_T 4 0) as [E|_]; [lra|].
